@@ -161,7 +161,7 @@ class SnmpSession(object):
         self._policer: Optional[BasePolicer] = None
         if policer:
             self._policer = policer
-        elif limit_rps:
+        elif limit_rps is not None:
             self._policer = RPSPolicer(float(limit_rps))
 
     async def __aenter__(self: "SnmpSession") -> "SnmpSession":
